@@ -883,3 +883,165 @@ class StrandEndToEnd(EnumContract):
 
 
 REGISTRY.append(StrandEndToEnd())
+
+
+# =======================================================================================
+# C13: pairwise column tests and their index sets through the public API
+
+
+def gen_pairwise_case(rnd):
+    dims = [gen_dim(rnd, "CAT", "a"), gen_dim(rnd, "CAT", "b")]
+    for d in dims:
+        d.pop("doc_order", None)
+    weighted = rnd.random() < 0.4
+    rs = gen_respondents(rnd, dims, rnd.choice([6, 12, 25, 40]), weighted)
+    cd = dims[1]
+    ids = [c["id"] for c in cd["cats"]]
+    t = {}
+    if rnd.random() < 0.5:
+        t["insertions"] = [{"function": "subtotal", "name": "s", "anchor": rnd.choice(["top", "bottom"] + ids),
+                            "args": rnd.sample(ids, rnd.choice([1, min(2, len(ids))])), "id": 1}]
+    if rnd.random() < 0.3:
+        t["elements"] = {str(rnd.choice(ids)): {"hide": True}}
+    if rnd.random() < 0.4:
+        t["order"] = {"type": "explicit", "element_ids": rnd.sample(ids, len(ids))}
+    if rnd.random() < 0.3:
+        t["prune"] = True
+    tr = {"columns_dimension": t} if t else {}
+    alpha = rnd.choice([None, 0.05, [0.05], [0.3, 0.05], [0.1, 0.45], 0.6])
+    pw = {}
+    if alpha is not None:
+        pw["alpha"] = alpha
+    r = rnd.random()
+    if r < 0.4:
+        pw["only_larger"] = False
+    elif r < 0.6:
+        pw["only_larger"] = True
+    if pw:
+        tr["pairwise_indices"] = pw
+    return dict(dims=dims, rs=rs, weighted=weighted, transforms=tr)
+
+
+class PairwiseEndToEnd(EnumContract):
+    name = "e2e:pairwise t / p-values and index sets vs first principles (public API)"
+    props = ("C13", "C05")
+    bound = ("CAT x CAT responses, <= 4 categories per dimension (missing ones anywhere), <= 40 respondents with "
+             "fractional weights, optional column subtotal (no differences) / hide / prune / explicit order, alpha in "
+             "{default, 0.05, [0.05], [0.3, 0.05], [0.1, 0.45], 0.6}, only_larger in {default, True, False}; seeded sample")
+    clauses = ("pairwise-t", "pairwise-p", "pairwise-antisymmetry", "pairwise-indices", "pairwise-indices-alt",
+               "pairwise-alt-contains-primary", "pairwise-never-self", "pairwise-exception")
+
+    def cases(self, cfg, seed, thorough):
+        rnd = random.Random(8000 + seed)
+        for _ in range(2500 if thorough else 300):
+            yield gen_pairwise_case(rnd)
+
+    def check_case(self, case, cfg):
+        import numpy as np
+        import warnings
+        from scipy.stats import t as tdist
+        from cr.cube.cube import Cube
+
+        warnings.simplefilter("ignore")
+        dims, rs, weighted, tr = case["dims"], case["rs"], case["weighted"], case["transforms"]
+        rd, cd = dims
+        R, C = valid_elems(rd), valid_elems(cd)
+        if not R or not C:
+            return []
+        bad = set()
+        try:
+            p = Cube(tabulate(dims, rs, weighted), transforms=copy.deepcopy(tr) or None, population=1000).partitions[0]
+            co = [int(i) for i in p.column_order()]
+            ro = [int(i) for i in p.row_order()]
+            vids = [cd["cats"][j]["id"] for j in C]
+            ins = []
+            for one in (tr.get("columns_dimension") or {}).get("insertions") or []:
+                if set(one["args"]) & set(vids):
+                    ins.append([vids.index(i) for i in vids if i in one["args"]])
+            S = len(ins)
+
+            def members(o):
+                return [o] if o >= 0 else ins[o + S]
+
+            W = np.array([[wsum(rs, lambda r, i=i, j=j: r["a"][0] == i and r["a"][1] == j) for j in C] for i in R])
+            U = np.array([[wsum(rs, lambda r, i=i, j=j: r["a"][0] == i and r["a"][1] == j, False) for j in C] for i in R])
+            # per display column: proportion of each base row and unweighted column base
+            P, N = [], []
+            for o in co:
+                m = members(o)
+                w = W[:, m].sum(axis=1)
+                with np.errstate(all="ignore"):
+                    P.append(w / w.sum())
+                N.append(U[:, m].sum())
+            P = np.array(P).T if co else np.zeros((len(R), 0))  # rows x display columns
+            N = np.array(N, dtype=float)
+            rows = [o for o in ro if o >= 0]
+            rpos = [k for k, o in enumerate(ro) if o >= 0]
+            alpha_cfg = (tr.get("pairwise_indices") or {}).get("alpha")
+            if not alpha_cfg:
+                a1, a2 = 0.05, None
+            elif isinstance(alpha_cfg, float):
+                a1, a2 = alpha_cfg, None
+            elif len(alpha_cfg) == 1:
+                a1, a2 = alpha_cfg[0], None
+            else:
+                a1, a2 = sorted(alpha_cfg[:2])
+            only_larger = (tr.get("pairwise_indices") or {}).get("only_larger", True) is not False
+
+            def tp(sel):
+                """t and p matrices (base rows x display columns) against selected display column"""
+                with np.errstate(all="ignore"):
+                    pa, na = P[:, [sel]], N[sel]
+                    se = np.sqrt(pa * (1 - pa) / na + P * (1 - P) / N[None, :])
+                    t = (P - pa) / se
+                    df = N[None, :] + na - 2
+                    pv = 2 * (1 - tdist.cdf(np.abs(t), df))
+                return t, pv
+
+            got_idx = p.pairwise_indices
+            got_alt = p.pairwise_indices_alt
+            if (got_alt is None) != (a2 is None):
+                bad.add("pairwise-indices-alt")
+            T_all = []
+            for c in range(len(co)):
+                t, pv = tp(c)
+                T_all.append(t)
+                gt = np.asarray(p.pairwise_significance_t_stats(c), dtype=float)[rpos, :]
+                gp = np.asarray(p.pairwise_significance_p_vals(c), dtype=float)[rpos, :]
+                te = t[rows, :]
+                pe = pv[rows, :]
+                if not close(gt, te, 1e-6):
+                    bad.add("pairwise-t")
+                if not close(gp, pe, 1e-6):
+                    bad.add("pairwise-p")
+                for alpha, got, clause in ((a1, got_idx, "pairwise-indices"), (a2, got_alt, "pairwise-indices-alt")):
+                    if alpha is None or got is None:
+                        continue
+                    for rr, r_ in enumerate(rows):
+                        row_p, row_t = pe[rr], te[rr]
+                        if np.any(np.abs(row_p - alpha) < 1e-7):
+                            continue  # too close to the threshold for a float comparison
+                        exp = tuple(k for k in range(len(co)) if row_p[k] < alpha and (not only_larger or row_t[k] < 0))
+                        g = tuple(int(x) for x in got[rpos[rr]][c])
+                        if g != exp:
+                            bad.add(clause)
+                        if c in g:
+                            bad.add("pairwise-never-self")
+            # antisymmetry of t, symmetry of p in (a, b)
+            for a in range(len(co)):
+                for b in range(len(co)):
+                    ta = np.asarray(p.pairwise_significance_t_stats(a), dtype=float)[rpos, b]
+                    tb = np.asarray(p.pairwise_significance_t_stats(b), dtype=float)[rpos, a]
+                    if not close(ta, -tb, 1e-6):
+                        bad.add("pairwise-antisymmetry")
+            if a2 is not None and got_alt is not None and got_idx is not None:
+                for rr in range(len(ro)):
+                    for c in range(len(co)):
+                        if not set(got_idx[rr][c]) <= set(got_alt[rr][c]):
+                            bad.add("pairwise-alt-contains-primary")
+        except Exception as e:
+            bad.add("pairwise-exception:%s" % type(e).__name__)
+        return sorted(bad)
+
+
+REGISTRY.append(PairwiseEndToEnd())
